@@ -32,7 +32,8 @@ def one(d, expect):
             return d, pid, 'PATCH-DOES-NOT-APPLY', False, ''
         env = dict(os.environ, SA_REPO=tmp, SA_EVIDENCE=os.path.join(tmp, 'ev'))
         r = subprocess.run(['/venv/bin/python', os.path.join(VERIF, 'sa', 'run.py'), '--property', pid], env=env, capture_output=True, text=True)
-        first = next((l for l in r.stdout.splitlines() if l.startswith(('FAIL', 'ANALYSIS-ERROR'))), '')
+        # the first violation report (an analysis error of another rule on the same tree is not what detects the change)
+        first = next((l for l in r.stdout.splitlines() if l.startswith('FAIL')), None) or next((l for l in r.stdout.splitlines() if l.startswith('ANALYSIS-ERROR')), '')
         return d, pid, {0: 'silent', 1: 'VIOLATION', 2: 'ANALYSIS-ERROR'}.get(r.returncode, 'rc=%d' % r.returncode), r.returncode == expect, first
     finally:
         shutil.rmtree(tmp, ignore_errors=True)
